@@ -192,6 +192,11 @@ CHECKS.update({
         "note": TRUST + " 88 edit instances, histories up to the stated length; aliasing of objects the property's operations never edit (HTN methods, task network) is not reachable.",
         "technique": "TLA+ refinement check of clone() against a content-only model (TLC) + trace validation of TLC-enumerated edit histories replayed on the real problem classes",
     },
+    "C18": {
+        "text": "Generated problems (four slices: classical/numeric, temporal with timed initial literals, adversarial identifiers applied by pure renaming, third-party-reader friendly) are written by the real PDDLWriter, read back by UPPDDLReader and by the third-party reader, renamed back through get_item_named, and TLC judges the pair (original, re-read) with Bisim.tla (same objects, ground fluents, initial state, applicability, successors and goal verdicts over the reachable states within a bound, action costs, metric kind; plan length compared as unit costs) and PddlRoundTrip.tla (exception rules: writer rejection vs crash, no failure of UP's own reader on the writer's output, third-party failures only for a missing :requirements flag; temporal structure slot by slot on sample states; plan round trip through write_plan / parse_plan with equal SeqVerdict / TimeVerdict and MetricValue).",
+        "note": TRUST + " Each problem is written in a fresh process (the writer's keyword set was process-global before the fix). PDDL has no bounded numeric types: the dropped bounds are a known finding; the third-party pddl package's de-duplication of repeated operands is a known finding outside unified_planning.",
+        "technique": "TLA+ bisimulation / round-trip specification (TLC) judging problems and plans written and re-read by the real PDDL writer and readers",
+    },
 })
 
 NOT_APPLICABLE = {}
